@@ -39,6 +39,21 @@ CHECKS["C28"] = (
     "§6 C28", "status",
 )
 
+_SCP_TECH = ("TLA+ reference machine of the SCP side (Scp.tla: handler as environment, responses as history) model-checked by TLC; "
+             "every terminal behaviour (handler script) TLC finds is executed on the real service classes through Association._serve_request "
+             "(S2C) and the observed response history is judged by the Trace_Scp spec with the same predicates (C2S)")
+_SCP_NOTE = ("Trusted: handler alphabet (status classes x dataset classes x sub-operation outcomes) and step bound; transport cut at "
+             "dul.send_pdu (real DIMSE encode + decode); C-MOVE destination association stubbed; documented failure codes transcribed from docs/service_classes/*.rst.")
+CHECKS["C20"] = ("model_checking", _SCP_TECH,
+    "All handler scripts up to the step bound for C-ECHO, C-STORE (acceptor and C-GET-requestor side), C-FIND (Patient Root, Repository Query), C-GET, C-MOVE and the six DIMSE-N services: Pending* then exactly one final, nothing after it, message id and context of the request, final missing only after a handler abort.",
+    _SCP_NOTE, "§6 C20", "scp")
+CHECKS["C21"] = ("model_checking", _SCP_TECH,
+    "Same behaviours as C20; each response's status is compared with the handler-supplied int / Dataset.Status (optional status elements copied) or the documented failure code, and response datasets with the handler's dataset after decoding in the negotiated transfer syntax.",
+    _SCP_NOTE + " Undocumented cases (C-ECHO invalid status type, out-of-range ints) are unconstrained.", "§6 C20-C22", "scp")
+CHECKS["C22"] = ("model_checking", _SCP_TECH,
+    "C-GET and C-MOVE with N in 1..3 announced sub-operations, every interleaving of pending yields with sub-operation outcomes success/warning/failure/exception, invalid datasets, early finals, raises and aborts: counter sum, monotonicity, final total, failed-instance list and final status rule.",
+    _SCP_NOTE, "§6 C20-C22", "scp")
+
 NOT_YET = {}
 
 
